@@ -43,6 +43,9 @@ def gen_base(rng, used, in_seq):
     dims = None
     if rank and rng.random() < 0.55:
         dims = tuple(rng.choice(DIMS) for _ in range(rank))
+        if not in_seq and rng.random() < 0.12:
+            # dimension names that do not cover the shape (a foreign DDS naming only some dimensions parses to such a variable)
+            dims = dims[:-1] if rank > 1 and rng.random() < 0.7 else dims + (rng.choice(DIMS),)
     return ("base", name, dt, shape, dims)
 
 
@@ -167,7 +170,7 @@ def expected(node, q, in_seq=False):
         _, name, dt, shape, dims = node
         import numpy as np
         ty = TYPES[np.dtype(dt).char][1]
-        if dims:
+        if dims and len(dims) == len(shape):
             dn = tuple(q(d) for d in dims)
         elif len(shape) == 1:
             dn = (q(name),)
@@ -263,14 +266,21 @@ def foreign_base(rng, name, named=None):
         shape = [rng.randint(1, 12) for _ in range(rank)]
         if rank and rng.random() < 0.5:
             named = [(rng.choice(IDENTS), n) for n in shape]
+            if rank >= 2 and rng.random() < 0.3:
+                # only some of the dimensions are named (the grammar names every dimension on its own)
+                keepn = rng.sample(range(rank), rng.randint(1, rank - 1))
+                named = [(d if j in keepn else None, n) for j, (d, n) in enumerate(named)]
     else:
         shape = [n for _, n in named]
     dims = ""
     if named:
         for d, n in named:
+            if d is None:
+                dims += rng.choice(["[%d]", "[ %d ]"]) % n
+                continue
             dims += rng.choice(["[%s = %d]", "[%s=%d]", "[ %s = %d ]", "[%s =%d]", "[%s= %d ] "]) % (d, n)
             dims = dims.rstrip(" ") if rng.random() < 0.5 else dims
-        dn = tuple(d for d, _ in named)
+        dn = tuple(d for d, _ in named if d is not None)
     else:
         for n in shape:
             dims += rng.choice(["[%d]", "[ %d ]", "[%d] ", "[0%d]"]) % n
@@ -414,6 +424,14 @@ def main():
         if got != want or p.name != ref_quote(dsname).replace(".", "%2E"):
             direct.append({"law": "a DDS in the style of other servers parses to the structure it declares", "dds": text,
                            "parsed": repr(got)[:1500], "declared": repr(want)[:1500]})
+        else:
+            # what was parsed is printed, and the print declares every variable with its whole shape again
+            p2, err2 = parse("".join(dds(p)))
+            shp = lambda t: (t[1], t[3]) if t[0] == "base" else (t[1], shp(t[2]), tuple(shp(m) for m in t[3])) if t[0] == "grid" else (t[1], tuple(shp(k) for k in t[2]))  # noqa
+            flawed_f = "Sequence" in "".join(dds(p))
+            if not flawed_f and (err2 is not None or tuple(shp(plain(c)) for c in p2.children()) != tuple(shp(t) for t in got)):
+                direct.append({"law": "the DDS printed for a parsed foreign DDS declares every variable with its whole shape", "dds": text,
+                               "printed": "".join(dds(p))[:1200], "error": repr(err2)[:200] if err2 else None})
 
     # ---- (3) mutated texts: the parser model and the implementation accept / reject alike and build the same tree
     alphabet = "{};[]=: \nAx0"
